@@ -40,3 +40,5 @@ func TestC18Proc(t *testing.T)  { RunC18Proc(t) }
 func TestC18Child(t *testing.T) { RunC18Child(t) }
 func TestC03Enum(t *testing.T) { RunC03Enum(t) }
 func TestC08Enum(t *testing.T) { RunC08Enum(t) }
+func TestC19Big(t *testing.T) { RunC19Big(t) }
+func TestC02Big(t *testing.T) { RunC02Big(t) }
